@@ -30,11 +30,12 @@ type Step struct {
 
 // Tmpl is a named P&T template.
 type Tmpl struct {
-	Name        string
-	Kind        string // Thing | Gadget | Strict
-	RequireMode bool   // required FromCompositeFieldPath patch spec.mode -> spec.mode
-	Readiness   string // "none" | "phase" | "default"
-	Enabled     bool
+	Name         string
+	Kind         string // Thing | Gadget | Strict
+	RequireMode  bool   // required FromCompositeFieldPath patch spec.mode -> spec.mode
+	OptionalMode bool   // optional FromCompositeFieldPath patch spec.mode -> spec.mode
+	Readiness    string // "none" | "phase" | "default"
+	Enabled      bool
 }
 
 // XRSpec is the user-owned part of an XR.
@@ -164,6 +165,9 @@ func Draw(t *sim.Tape, p DrawParams) *Workload {
 			if t.Next(4) == 0 {
 				st.Ops = append(st.Ops, simfn.Op{"op": "contextReset"})
 			}
+			if t.Next(4) == 0 {
+				st.Ops = append(st.Ops, simfn.Op{"op": "require", "mode": "narrow", "report": "y"})
+			}
 			for _, sn := range []string{"creds-a", "creds-b"} {
 				if t.Next(3) == 0 {
 					st.Creds = append(st.Creds, sn)
@@ -191,9 +195,15 @@ func Draw(t *sim.Tape, p DrawParams) *Workload {
 		}
 		tm.Readiness = "none"
 		if p.Readiness {
-			tm.Readiness = []string{"none", "phase", "default"}[t.Next(3)]
+			tm.Readiness = []string{"none", "phase", "default", "cond+phase", "phase+cond"}[t.Next(5)]
 		}
 		w.Templates = append(w.Templates, tm)
+	}
+	if p.Strict {
+		// a template of the kind that rejects objects without spec.mode, fed by an
+		// optional patch: when the XR has no spec.mode the object renders fine and
+		// the API server rejects it as invalid
+		w.Templates = append(w.Templates, Tmpl{Name: "s1", Kind: "Strict", OptionalMode: true, Readiness: "none", Enabled: t.Next(2) == 0})
 	}
 	if p.Conn {
 		w.ConnNS = t.Next(4) > 0
@@ -260,11 +270,23 @@ func (wl *Workload) Composition() *v1.Composition {
 			req := v1.FromFieldPathPolicyRequired
 			ct.Patches = append(ct.Patches, v1.Patch{Type: v1.PatchTypeFromCompositeFieldPath, FromFieldPath: ptr.To("spec.mode"), ToFieldPath: ptr.To("spec.mode"), Policy: &v1.PatchPolicy{FromFieldPath: &req}})
 		}
+		if tm.OptionalMode {
+			ct.Patches = append(ct.Patches, v1.Patch{Type: v1.PatchTypeFromCompositeFieldPath, FromFieldPath: ptr.To("spec.mode"), ToFieldPath: ptr.To("spec.mode")})
+		}
 		switch tm.Readiness {
 		case "none":
 			ct.ReadinessChecks = []v1.ReadinessCheck{{Type: v1.ReadinessCheckTypeNone}}
 		case "phase":
 			ct.ReadinessChecks = []v1.ReadinessCheck{{Type: v1.ReadinessCheckTypeMatchString, FieldPath: "status.phase", MatchString: "Ready"}}
+		case "cond+phase", "phase+cond":
+			// several checks: all of them must pass
+			ph := v1.ReadinessCheck{Type: v1.ReadinessCheckTypeMatchString, FieldPath: "status.phase", MatchString: "Ready"}
+			cd := v1.ReadinessCheck{Type: v1.ReadinessCheckTypeMatchCondition, MatchCondition: &v1.MatchConditionReadinessCheck{Type: xpv1.TypeReady, Status: "True"}}
+			if tm.Readiness == "cond+phase" {
+				ct.ReadinessChecks = []v1.ReadinessCheck{cd, ph}
+			} else {
+				ct.ReadinessChecks = []v1.ReadinessCheck{ph, cd}
+			}
 		}
 		c.Spec.Resources = append(c.Spec.Resources, ct)
 	}
